@@ -94,6 +94,7 @@ impl<'a> Parser<'a> {
             filters.push(f.value.to_lowercase());
 
             loop {
+                #[cfg(feature = "verif")] asca::verif::tick(106);
                 if self.expect(TokenKind::RightCurly) { break; }
                 if !self.expect(TokenKind::Comma)     { 
                     let pos = self.curr_tkn.position;
@@ -218,6 +219,7 @@ impl<'a> Parser<'a> {
             entries.push(e);
             
             while self.has_more_tokens() {
+                #[cfg(feature = "verif")] asca::verif::tick(107);
                 if !self.expect(TokenKind::Comma) { break; }
                 match self.get_entry()? {
                     Some(e) => entries.push(e),
@@ -242,6 +244,7 @@ impl<'a> Parser<'a> {
         }
 
         while self.has_more_tokens() {
+            #[cfg(feature = "verif")] asca::verif::tick(108);
             if self.expect(TokenKind::RightSquare) { break; }
             if !self.expect(TokenKind::Comma)      { 
                 let pos = self.curr_tkn.position;
@@ -323,6 +326,7 @@ impl<'a> Parser<'a> {
         let mut conf = Vec::new();
 
         while self.curr_tkn.kind != TokenKind::EoF {
+            #[cfg(feature = "verif")] asca::verif::tick(109);
             let seq = self.get_seq()?;
 
             if !tag_set.insert(seq.tag.clone()) {
@@ -357,6 +361,7 @@ impl<'a> Parser<'a> {
         let mut head = head;
 
         while let Some(from) = &head.from {
+            #[cfg(feature = "verif")] asca::verif::tick(110);
             if !set.insert(from.to_string()) {
                 return true
             }
